@@ -49,17 +49,22 @@ def lit(node):
 
 
 EXTRACTORS = {}
+EMITTERS = {}
 
 
-def extractor(name):
+def extractor(name, emit):
     def deco(f):
         EXTRACTORS[name] = f
+        EMITTERS[name] = emit
         return f
     return deco
 
 
 # ---------------------------------------------------------------- C03
-@extractor("cmap_bmp_max")
+@extractor("cmap_bmp_max", lambda v: [
+    "(* outlineCompiler.setupTable_cmap *)",
+    "Definition cmap_nonbmp_gt : Z := %s." % gallina(v["nonbmp_gt"]),
+    "Definition cmap_bmp_le : Z := %s." % gallina(v["bmp_le"])])
 def _cmap_bmp_max():
     """the `k > 65535` / `k <= 65535` threshold of setupTable_cmap"""
     fn = find_func(parse("outlineCompiler.py"), "setupTable_cmap")
@@ -81,7 +86,9 @@ def _cmap_bmp_max():
     return {"nonbmp_gt": gts.pop(), "bmp_le": les.pop()}
 
 
-@extractor("os2_char_index_max")
+@extractor("os2_char_index_max", lambda v: [
+    "(* outlineCompiler.setupTable_OS2 first/last char index clamp *)",
+    "Definition os2_char_index_max : Z := %s." % gallina(v)])
 def _os2_char_index_max():
     """`if maxIndex > 0xFFFF: maxIndex = 0xFFFF` in setupTable_OS2"""
     fn = find_func(parse("outlineCompiler.py"), "setupTable_OS2")
@@ -97,6 +104,77 @@ def _os2_char_index_max():
     if len(vals) != 1:
         raise LookupError("maxIndex clamp")
     return vals.pop()
+
+
+# ---------------------------------------------------------------- C11 / C12
+def _class_attr(tree, cls, name):
+    for node in ast.walk(tree):
+        if isinstance(node, ast.ClassDef) and node.name == cls:
+            for st in node.body:
+                if isinstance(st, ast.Assign) and isinstance(st.targets[0], ast.Name) and st.targets[0].id == name:
+                    return st.value
+    raise LookupError(name)
+
+
+def _charclass_ranges(pattern):
+    """'[^0-9a-zA-Z_.]' -> sorted list of allowed (lo, hi) code point ranges"""
+    if not (pattern.startswith("[^") and pattern.endswith("]")):
+        raise LookupError("unsupported regex form %r" % pattern)
+    body = pattern[2:-1]
+    out, i = [], 0
+    while i < len(body):
+        c = body[i]
+        if c == "\\":
+            i += 1
+            c = body[i]
+        if i + 2 < len(body) and body[i + 1] == "-":
+            out.append([ord(c), ord(body[i + 2])])
+            i += 3
+        else:
+            out.append([ord(c), ord(c)])
+            i += 1
+    return sorted(out)
+
+
+@extractor("glyph_name_legal_ranges", lambda v: [
+    "(* postProcessor.GLYPH_NAME_INVALID_CHARS: characters that survive (as code point ranges) *)",
+    "Definition glyph_name_legal_ranges : list (Z * Z) := [%s]." % "; ".join("(%d, %d)" % (a, b) for a, b in v)])
+def _legal_ranges():
+    v = _class_attr(parse("postProcessor.py"), "PostProcessor", "GLYPH_NAME_INVALID_CHARS")
+    if not (isinstance(v, ast.Call) and isinstance(v.args[0], ast.Constant)):
+        raise LookupError("GLYPH_NAME_INVALID_CHARS")
+    return _charclass_ranges(v.args[0].value)
+
+
+@extractor("max_glyph_name_length", lambda v: [
+    "Definition max_glyph_name_length : nat := %d%%nat." % v])
+def _max_len():
+    return lit(_class_attr(parse("postProcessor.py"), "PostProcessor", "MAX_GLYPH_NAME_LENGTH"))
+
+
+@extractor("default_subroutinizer", lambda v: [
+    "(* postProcessor.DEFAULT_SUBROUTINIZER_FOR_CFF_VERSION: 0 = cffsubr, 1 = compreffor *)",
+    "Definition default_subroutinizer_cff1 : Z := %d." % v["1"],
+    "Definition default_subroutinizer_cff2 : Z := %d." % v["2"]])
+def _default_subr():
+    v = _class_attr(parse("postProcessor.py"), "PostProcessor", "DEFAULT_SUBROUTINIZER_FOR_CFF_VERSION")
+    out = {}
+    for k, val in zip(v.keys, v.values):
+        out[str(lit(k))] = {"CFFSUBR": 0, "COMPREFFOR": 1}[val.attr]
+    return out
+
+
+@extractor("cff_optimization", lambda v: [
+    "(* constants.CFFOptimization *)",
+    "Definition cffopt_none : Z := %d." % v["NONE"],
+    "Definition cffopt_specialize : Z := %d." % v["SPECIALIZE"],
+    "Definition cffopt_subroutinize : Z := %d." % v["SUBROUTINIZE"]])
+def _cffopt():
+    tree = parse("constants.py")
+    for node in ast.walk(tree):
+        if isinstance(node, ast.ClassDef) and node.name == "CFFOptimization":
+            return {st.targets[0].id: lit(st.value) for st in node.body if isinstance(st, ast.Assign)}
+    raise LookupError("CFFOptimization")
 
 
 def gallina(v):
@@ -134,11 +212,9 @@ def main():
     A("Import ListNotations.")
     A("Open Scope Z_scope.")
     A("")
-    A("(* outlineCompiler.setupTable_cmap *)")
-    A("Definition cmap_nonbmp_gt : Z := %s." % gallina(values["cmap_bmp_max"]["nonbmp_gt"]))
-    A("Definition cmap_bmp_le : Z := %s." % gallina(values["cmap_bmp_max"]["bmp_le"]))
-    A("(* outlineCompiler.setupTable_OS2 usFirstCharIndex/usLastCharIndex clamp *)")
-    A("Definition os2_char_index_max : Z := %s." % gallina(values["os2_char_index_max"]))
+    for name in EXTRACTORS:
+        for line in EMITTERS[name](values[name]):
+            A(line)
     text = "\n".join(L) + "\n"
     old = open(OUT).read() if os.path.exists(OUT) else None
     if old != text:
